@@ -159,7 +159,7 @@ def register(reg):
     @reg.contract
     class EnforceHeaders(Contract):
         key = M + "enforce_headers"
-        props = ("C19",)
+        props = ("C19", "C03")
         suspends = False
         inline = True
         variants = [
@@ -179,7 +179,12 @@ def register(reg):
             if isinstance(v, VNone):
                 return [("none_is_empty_list", ("C19",), isinstance(r, VList) and not r.items)]
             if isinstance(v, VSeq):
-                return [("bytes_pairs_unchanged_same_order", ("C19",), e.coerce(st, r, "seq:hdr").t == v.t)]
+                # "header lists keep order and duplicates" - including the CALLER's list: include_request_headers extends the list
+                # it is given in place (`headers += [...]`), so handing back the caller's own list object makes one request's
+                # Content-Length appear in the caller's list and in every later request built from it (seeds C19-w4-1 / C03-w4-1).
+                # Decided on object identity of the symbolic value: `return value` is the same object, a comprehension is not.
+                return [("bytes_pairs_unchanged_same_order", ("C19",), e.coerce(st, r, "seq:hdr").t == v.t),
+                        ("result_is_a_new_list_never_the_callers_own", ("C19", "C03"), r is not v)]
             if isinstance(v, VList):
                 ok = isinstance(r, VList) and len(r.items) == 2
                 if not ok:
@@ -302,7 +307,7 @@ def register(reg):
     @reg.contract
     class URLInit(Contract):
         key = URL + ".__init__"
-        props = ("C19", "C03")
+        props = ("C19", "C03", "C11", "C10")
         suspends = False
         variants = [
             ("url_bytes", {"url": "bytes", "scheme": "bytes", "host": "bytes", "port": "opt:int", "target": "bytes"}),
@@ -331,10 +336,10 @@ def register(reg):
                 target = z3.Concat(z3.If(z3.Length(path) > 0, path, bytes_lit(b"/")), z3.If(z3.Length(q) > 0, z3.Concat(bytes_lit(b"?"), q), z3.Empty(BytesS)))
                 port = c.new(s, "URL.port")
                 out += [
-                    ("scheme_is_rfc_scheme", ("C19",), F(c, s, "URL.scheme") == rfc_scheme(b)),
-                    ("host_is_lowercased_rfc_host", ("C19",), F(c, s, "URL.host") == rfc_host(b)),
+                    ("scheme_is_rfc_scheme", ("C19", "C11", "C10"), F(c, s, "URL.scheme") == rfc_scheme(b)),
+                    ("host_is_lowercased_rfc_host", ("C19", "C11", "C10"), F(c, s, "URL.host") == rfc_host(b)),
                     ("port_is_rfc_port", ("C19",), z3.And(port.none == z3.Not(rfc_has_port(b)), z3.Implies(rfc_has_port(b), port.val.t == rfc_port(b)))),
-                    ("target_is_complete_path_plus_query", ("C19", "C03"), F(c, s, "URL.target") == target),
+                    ("target_is_complete_path_plus_query", ("C19", "C03", "C11"), F(c, s, "URL.target") == target),
                 ]
                 if isinstance(u, VStr):
                     out.append(("str_url_is_ascii", ("C19",), is_ascii_str(u.t)))
